@@ -193,7 +193,7 @@ def run_api(prop, tier, seed, profiles, builds, own_guards, crash_decisive=False
             if (sig, tpath) in seen:
                 continue
             seen.add((sig, tpath))
-            decisive = name in own_guards or (crash_decisive and name == CRASH)
+            decisive = name in own_guards or name == "TraceIntact" or (crash_decisive and name == CRASH)
             # "Guard@re" in own_guards: the guard is decisive for this property only on calls of the re-allocation family
             if not decisive and (name + "@re") in own_guards and ("realloc" in op or "recalloc" in op or "rezalloc" in op or "expand" in op):
                 decisive = True
